@@ -1,5 +1,254 @@
-/- Driver for C10 (stub until the property's model is written). -/
+/- Driver for C10: the real control.c / constmap.c / qmail-send.c getcontrols, rewrite, senderadd, comm_write,
+   todo_do and main-loop HUP handling (harness/c10_route.c) against `Nq.Rewrite`; the oracle is the documented
+   rule set `Nq.Route` (routeSpec, verpSpec, specCfg, specHup) evaluated on the implementation's outputs.
+   Line formats: see harness/c10_route.c. -/
 import Drv.Util
-open Drv
-def handle (st : Stats) (_line : String) : IO Stats := return { st with cases := st.cases + 1 }
-def main : IO Unit := runDriver handle
+import Nq.Rewrite
+import Nq.Spec.Route
+import Nq.Gen.Consts
+
+open Nq Nq.Rewrite Nq.Route Drv
+
+structure Cur where
+  ghex : String := ""
+  raw : Option RawCfg := none
+  L : Lookups := ⟨fun _ => false, fun _ => false, fun _ => none⟩
+  spec : Option Cfg := none
+  nodup : Bool := false
+  h : UInt64 := 0
+
+/-- "~" = absent file -/
+def unfile (s : String) : Option (Option Bytes) :=
+  if s == "~" then some none else (unhex s).map some
+
+def filesOf (l : List String) : Option Files :=
+  match l.map unfile with
+  | [some a, some b, some c, some d, some e] => some ⟨a, b, c, d, e⟩
+  | _ => none
+
+def nulFree (f : Files) : Bool :=
+  [f.me, f.env, f.locals, f.ph, f.vdoms].all (fun o => match o with | some s => !s.contains 0 | none => true)
+
+def entsEq (a b : List Ent) : Bool := a == b
+
+def retOf (r : Routed) : String := if r.chan == .loc then "1" else "2"
+
+def disagree (st : Stats) (msg : String) : IO Stats := do
+  IO.println s!"DISAGREE {msg}"
+  return { st with disagree := st.disagree + 1 }
+
+def oracleFail (st : Stats) (msg : String) : IO Stats := do
+  IO.println s!"ORACLE {msg}"
+  return { st with oracle := st.oracle + 1 }
+
+def cfgOk (c : Cfg) : Bool := cfgNoDup c
+
+/-- spec-level view of the C buffers: the entries they contain -/
+def bufCfgEq (raw : RawCfg) (c : Cfg) : Bool :=
+  raw.env == c.env && entsEq (parseEntries raw.ph false) c.ph &&
+  entsEq (parseEntries raw.locals false) c.locals && entsEq (parseEntries raw.vdoms true) c.vdoms
+
+def tRecips (todo : Bytes) : List Bytes :=
+  (chunks todo).filterMap (fun r => match r with | t :: b => if t == TEE then some b else none | [] => none)
+
+def todoWellFormed (todo : Bytes) : Bool :=
+  (chunks todo).all (fun r => match r with | t :: _ => t == TEE || t == 117 || t == 112 || t == 70 | [] => false)
+
+def fileField (s : String) : Option Bytes :=
+  if s == "~" then some [] else unhex s
+
+/-- one scenario: fold over the step tokens -/
+partial def scenario (st : Stats) (inh : String) (f0 : Files) (d : Daemon) (spec : Option Cfg) :
+    List String → IO Stats
+  | [] => return st
+  | "M" :: todoh :: infoh :: loch :: remh :: rest => do
+    match unhex todoh, fileField infoh, fileField loch, fileField remh with
+    | some todo, some info, some loc, some rem =>
+      let mut st := st.bump "S_msg"
+      let d' := d.top
+      let model := todoDo d'.cfg.htLookups d'.cfg.env todo
+      if model != some ⟨info, loc, rem⟩ then
+        let ms := match model with
+          | some o => s!"{hex o.info}:{hex o.loc}:{hex o.rem}"
+          | none => "fail"
+        st ← disagree st s!"kind=S in={inh} todo={todoh} impl={infoh}:{loch}:{remh} model={ms}"
+      match spec with
+      | some c =>
+        if cfgOk c && todoWellFormed todo then
+          let rs := tRecips todo
+          let el := specChan c .loc rs
+          let er := specChan c .rem rs
+          if el != loc || er != rem then
+            st ← oracleFail st s!"kind=S in={inh} todo={todoh} impl={loch}:{remh} spec={hex el}:{hex er}"
+          else if !loc.isEmpty && !rem.isEmpty then st := st.bump "S_msg_both_channels"
+        else st := st.bump "S_oracle_skipped_dup"
+      | none => pure ()
+      scenario st inh f0 d' spec rest
+    | _, _, _, _ => disagree st s!"kind=S in={inh} preprocessing-failed-or-unparsable todo={todoh} {infoh} {loch} {remh}"
+  | k :: a :: b :: c :: e :: f :: rest => do
+    if k != "H" && k != "E" then return (← disagree st s!"kind=S in={inh} bad-step {k}")
+    match filesOf [a, b, c, e, f] with
+    | some nf =>
+      let d1 := { d with files := nf }
+      if k == "H" then
+        let d2 := { d1 with flagread := true }
+        let spec' := match spec with
+          | some sc => if nulFree nf then some (specHup sc f0 nf) else none
+          | none => none
+        scenario (st.bump "S_hup") inh f0 d2 spec' rest
+      else scenario (st.bump "S_edit_nohup") inh f0 d1 spec rest
+    | none => disagree st s!"kind=S in={inh} unparsable files"
+  | _ => disagree st s!"kind=S in={inh} truncated (daemon died or timed out)"
+
+def handle (ref : IO.Ref Cur) (st : Stats) (line : String) : IO Stats := do
+  let fs := fields line
+  let st := { st with cases := st.cases + 1 }
+  match fs with
+  | ["G", a, b, c, d, e, ok, envh, phh, lch, vdh] =>
+    match filesOf [a, b, c, d, e], unhex envh, unhex phh, unhex lch, unhex vdh with
+    | some f, some envb, some phb, some lcb, some vdb =>
+      let ghex := ",".intercalate [a, b, c, d, e]
+      let model := getcontrols f
+      let implRaw : RawCfg := ⟨envb, phb, lcb, vdb⟩
+      let mut st := st.bump "G"
+      let agree := match model with
+        | some r => ok == "1" && r == implRaw
+        | none => ok == "0"
+      if !agree then
+        let ms := match model with
+          | some r => s!"1:{hex r.env}:{hex r.ph}:{hex r.locals}:{hex r.vdoms}"
+          | none => "0"
+        st ← disagree st s!"kind=G g={ghex} in={ghex} impl={ok}:{envh}:{phh}:{lch}:{vdh} model={ms}"
+      let spec := if nulFree f then specCfg f else none
+      -- oracle: the buffers the implementation built contain exactly the documented entries
+      if nulFree f then
+        let good := match spec with
+          | some c => ok == "1" && bufCfgEq implRaw c
+          | none => ok == "0"
+        if !good then
+          st ← oracleFail st s!"kind=G g={ghex} in={ghex} impl={ok}:{envh}:{phh}:{lch}:{vdh}"
+      let nodup := match spec with | some c => cfgOk c | none => false
+      if !nodup && spec.isSome then st := st.bump "G_dup_keys"
+      ref.set { ghex := ghex, raw := model, L := match model with | some r => r.htLookups | none => ({} : Cur).L,
+                spec := spec, nodup := nodup, h := hashBytes (ghex.toUTF8.toList) }
+      return st
+    | _, _, _, _, _ => disagree st s!"unparsable line {line}"
+  | ["R", rh, ret, lineh] =>
+    match unhex rh, unhex lineh with
+    | some recip, some il =>
+      let cur ← ref.get
+      match cur.raw with
+      | none => disagree st s!"kind=R g={cur.ghex} in={rh} rewrite ran although the model refuses this configuration"
+      | some raw =>
+        let m := rewriteWith cur.L raw.env recip
+        let mut st := st
+        if retOf m != ret || m.line != il then
+          st ← disagree st s!"kind=R g={cur.ghex} in={rh} impl={ret}:{lineh} model={retOf m}:{hex m.line}"
+        let ma := rewrite raw.cfg recip
+        if ma != m then
+          st ← disagree st s!"kind=R g={cur.ghex} in={rh} hash-table model and finite-map model differ"
+        st := st.bump (if m.chan == .loc then (if m.tag.isEmpty then "R_local" else "R_virtual") else "R_remote")
+        let pct := m.addr != (if recip.contains AT then recip else recip ++ AT :: raw.env)
+        if pct then st := st.bump "R_percenthack_applied"
+        let key := hashBytes recip ^^^ cur.h
+        let fresh := !st.seen.contains key
+        if fresh && (m.chan == .loc || pct) then
+          st := { st with seen := st.seen.insert key, nontrivial := st.nontrivial + 1 }
+        match cur.spec with
+        | some c =>
+          if cur.nodup then
+            let s := routeSpec c recip
+            if retOf s != ret || s.line != il then
+              st ← oracleFail st s!"kind=R g={cur.ghex} in={rh} impl={ret}:{lineh} spec={retOf s}:{hex s.line}"
+            -- statistics: how often the two readings of "repeatedly" differ (fqdn containing '@')
+            let a0 := if recip.contains AT then recip else recip ++ AT :: c.env
+            if pctString c.ph (a0.length + 1) a0 != s.addr then st := st.bump "R_pct_readings_differ"
+            if fresh && st.samples < 3 && m.chan == .loc && !m.tag.isEmpty && pct then
+              IO.println s!"SAMPLE kind=R g={cur.ghex} in={rh} ret={ret} rwline={lineh}"
+              st := { st with samples := st.samples + 1 }
+          else st := st.bump "R_oracle_skipped_dup"
+        | none => st := st.bump "R_oracle_skipped_nul"
+        return st
+    | _, _ => disagree st s!"unparsable line {line}"
+  | ["V", sh, rh, dn, ids, bufh] =>
+    match unhex sh, unhex rh, unhex bufh, dn.toNat?, ids.toNat? with
+    | some sender, some recip, some buf, some delnum, some id =>
+      let fnm := fmtNat (id % Nq.Gen.auto_split) ++ 47 :: fmtNat id
+      let m := commWrite delnum.toUInt8 fnm sender recip
+      let mut st := st.bump "V"
+      if m != buf then
+        st ← disagree st s!"kind=V in={sh} recip={rh} delnum={dn} id={ids} impl={bufh} model={hex m}"
+      let want := verpSpec sender recip
+      let good := match buf with
+        | _ :: rest => chunks rest == [fnm, want, recip]
+        | [] => false
+      if !good then
+        st ← oracleFail st s!"kind=V in={sh} recip={rh} delnum={dn} id={ids} impl={bufh} spec_sender={hex want}"
+      if want != sender then
+        st := st.bump "V_verp_expanded"
+        let key := hashBytes (sender ++ 0 :: recip)
+        if !st.seen.contains key then st := { st with seen := st.seen.insert key, nontrivial := st.nontrivial + 1 }
+      return st
+    | _, _, _, _, _ => disagree st s!"unparsable line {line}"
+  | ["K", bh, fcs, kh, found, vh] =>
+    match unhex bh, unhex kh, unhex vh with
+    | some buf, some key, some v =>
+      let fc := fcs == "1"
+      let m := (cmInit buf fc).lookup key
+      let mut st := st.bump "K"
+      let agree := match m with
+        | some x => found == "1" && (!fc || x == v)
+        | none => found == "0"
+      if !agree then
+        let ms := match m with | some x => "1:" ++ hex x | none => "0"
+        st ← disagree st s!"kind=K in={kh} buf={bh} fc={fcs} impl={found}:{vh} model={ms}"
+      let es := parseEntries buf fc
+      if noDupKeys es then
+        let good := match entryFor es key with
+          | some x => found == "1" && (!fc || x == v)
+          | none => found == "0"
+        if !good then st ← oracleFail st s!"kind=K in={kh} buf={bh} fc={fcs} impl={found}:{vh}"
+        if found == "1" then st := st.bump "K_found"
+      else st := st.bump "K_oracle_skipped_dup"
+      return st
+    | _, _, _ => disagree st s!"unparsable line {line}"
+  | ["X", kh, hs] =>
+    match unhex kh, hs.toNat? with
+    | some key, some h =>
+      if (cmHash key).toNat != h then disagree st s!"kind=X in={kh} impl={hs} model={(cmHash key).toNat}"
+      else return st.bump "X"
+    | _, _ => disagree st s!"unparsable line {line}"
+  | ["B", cs, sh, rs, cd] =>
+    match cs.toNat?, unhex sh, rs.toNat? with
+    | some c, some s, some r =>
+      let mut st := st.bump "B"
+      if rchr c.toUInt8 s != r then
+        st ← disagree st s!"kind=B in={sh} c={cs} impl={rs} model={rchr c.toUInt8 s}"
+      let good := match splitLast c.toUInt8 s with
+        | some p => r == p.1.length
+        | none => r == s.length
+      if !good || cd != "1" then st ← oracleFail st s!"kind=B in={sh} c={cs} impl={rs} casefold_equal={cd}"
+      return st
+    | _, _, _ => disagree st s!"unparsable line {line}"
+  | "S" :: a :: b :: c :: d :: e :: started :: _n :: steps =>
+    match filesOf [a, b, c, d, e] with
+    | some f =>
+      let inh := ",".intercalate ("S" :: a :: b :: c :: d :: e :: steps.filter (fun t => t != ""))
+      let mut st := st.bump "S"
+      match start f with
+      | some dm =>
+        if started != "1" then
+          return (← disagree st s!"kind=S in={inh} the daemon did not start (model: starts)")
+        let spec := if nulFree f then specCfg f else none
+        if nulFree f && spec.isNone then
+          st ← oracleFail st s!"kind=S in={inh} the daemon started without locals and me"
+        scenario st inh f dm spec steps
+      | none =>
+        if started != "0" then disagree st s!"kind=S in={inh} the daemon started (model: refuses)"
+        else return st.bump "S_refused"
+    | none => disagree st s!"unparsable line {line}"
+  | _ => disagree st s!"unparsable line {line}"
+
+def main : IO Unit := do
+  let ref ← IO.mkRef ({} : Cur)
+  runDriver (handle ref)
